@@ -92,8 +92,9 @@ def plaintext_of(case):
 @implementer(IConsumer)
 class RecConsumer(object):
     """Records every write; optional pause/resume/stop at drawn write counts."""
-    def __init__(self, name, pause_at=None, pause_for=1.0, stop_at=None):
+    def __init__(self, name, pause_at=None, pause_for=1.0, stop_at=None, flaps=None):
         self.name = name
+        self.flaps = flaps or []
         self.chunks = []
         self.producer = None
         self.pause_at = pause_at
@@ -111,6 +112,11 @@ class RecConsumer(object):
             self.stopped = True
             p.stopProducing()
             return
+        for (t_, dt_) in self.flaps:
+            # flow control that has nothing to do with this consumer's writes (a shared connection's window closes and
+            # re-opens): pause and, a moment later, resume -- typically while a segment request is outstanding
+            dc = R.callLater(t_, self._flap, p, dt_)
+            dc.sim_label = "consumer-flap:" + self.name
         if isinstance(self.stop_at, float):
             # the consumer gives up after a while (a closed browser tab): typically while a segment is being fetched
             dc = R.callLater(self.stop_at, self._stop_later, p)
@@ -149,6 +155,16 @@ class RecConsumer(object):
     def _resume(self, p):
         if self.producer is p:
             p.resumeProducing()
+
+    def _flap(self, p, dt):
+        if self.producer is p and not self.stopped:
+            self.paused += 1
+            p.pauseProducing()
+            if dt <= 0:
+                p.resumeProducing()
+            else:
+                dc = R.callLater(dt, self._resume, p)
+                dc.sim_label = "consumer-flap-resume:" + self.name
 
     def data(self):
         return b"".join(self.chunks)
@@ -293,6 +309,9 @@ def gen_roundtrip(seed, tier, focus):
         pause_at = ch.pick("workload", ("pause", i), [None, None, 1, 2, 3]) if focus == "C04" else None
         stop_at = ch.pick("workload", ("stop", i), [None, None, None, 0, 1, 2, 0.0004, 0.003, 0.03, 0.4]) if focus == "C04" else None
         ops.append(["read", off, sz, start, pause_at, stop_at, ch.pick("workload", ("pfor", i), [0.01, 1.0, 20.0])])
+        if focus == "C04" and ch.chance("workload", ("flap", i), 0.3):
+            ops[-1].append([[ch.pick("workload", ("flap-t", i, j), [0.0, 0.0002, 0.001, 0.003, 0.01, 0.05]),
+                             ch.pick("workload", ("flap-dt", i, j), [0.0, 0.0, 0.0005, 0.004])] for j in range(ch.randint("workload", ("nflap", i), 1, 3))])
     return {"engine": "immsim", "profile": "roundtrip", "focus": focus, "seed": seed, "cfg": cfg, "ops": ops, "faults": []}
 
 
@@ -367,7 +386,7 @@ def exec_roundtrip(case):
                 bad("C05", "lit-used-servers", "literal read sent messages")
             # C04 on literal nodes
             for op in case["ops"]:
-                _, off, sz, start, pause_at, stop_at, pfor = op
+                _, off, sz, start, pause_at, stop_at, pfor = op[:7]
                 cons = RecConsumer("litr")
                 st3, r3 = run(node.read(cons, off, sz))
                 want = data[off:] if sz is None else data[off:off + sz]
@@ -417,8 +436,8 @@ def exec_roundtrip(case):
             probe("warm-node")
         pending = []
         for i, op in enumerate(case["ops"]):
-            _, off, sz, start, pause_at, stop_at, pfor = op
-            cons = RecConsumer("r%d" % i, pause_at, pfor or 1.0, stop_at)
+            _, off, sz, start, pause_at, stop_at, pfor = op[:7]
+            cons = RecConsumer("r%d" % i, pause_at, pfor or 1.0, stop_at, op[7] if len(op) > 7 else None)
             box = {}
 
             def go(cons=cons, off=off, sz=sz, box=box):
@@ -432,7 +451,7 @@ def exec_roundtrip(case):
             pending.append((op, cons, box))
         settle()
         for (op, cons, box) in pending:
-            _, off, sz, start, pause_at, stop_at, pfor = op
+            _, off, sz, start, pause_at, stop_at, pfor = op[:7]
             want = data[off:] if sz is None else data[off:off + sz]
             got = cons.data()
             if "r" not in box:
